@@ -446,6 +446,16 @@ func (rl *respDeserializer) getNextArray(count int) (value respArray, valid bool
 	return a, true
 }
 
+// map keys and set members are stored in Go maps, so they must be comparable:
+// an aggregate (array, map, set, push ...) in that position is not a valid value
+func respIsHashable(k respValue) bool {
+	switch k.data.(type) {
+	case respArray, respMap, respSet, respAttributeMap, respPush, respPairs:
+		return false
+	}
+	return true
+}
+
 func (rl *respDeserializer) getNextMap(pairs int) (value respMap, valid bool) {
 	m := newRespMapSized(pairs)
 
@@ -455,6 +465,10 @@ func (rl *respDeserializer) getNextMap(pairs int) (value respMap, valid bool) {
 			return
 		}
 		k = respNormalizeKey(k)
+		if !respIsHashable(k) {
+			valid = false
+			return
+		}
 		if v, valid = rl.getNextValue(); !valid {
 			return
 		}
@@ -474,6 +488,10 @@ func (rl *respDeserializer) getNextAttributeMap(pairs int) (value respAttributeM
 			return
 		}
 		k = respNormalizeKey(k)
+		if !respIsHashable(k) {
+			valid = false
+			return
+		}
 		if v, valid = rl.getNextValue(); !valid {
 			return
 		}
@@ -493,6 +511,10 @@ func (rl *respDeserializer) getNextSet(count int) (value respSet, valid bool) {
 			return
 		}
 		v = respNormalizeKey(v)
+		if !respIsHashable(v) {
+			valid = false
+			return
+		}
 		s[v] = struct{}{}
 	}
 
@@ -586,6 +608,10 @@ func (rl *respDeserializer) getNextDynamicMap() (value respMap, valid bool) {
 			return m, true
 		}
 		k = respNormalizeKey(k)
+		if !respIsHashable(k) {
+			valid = false
+			return
+		}
 		if v, valid = rl.getNextValue(); !valid {
 			return
 		}
@@ -607,6 +633,10 @@ func (rl *respDeserializer) getNextDynamicAttributeMap() (value respAttributeMap
 		}
 
 		k = respNormalizeKey(k)
+		if !respIsHashable(k) {
+			valid = false
+			return
+		}
 		if v, valid = rl.getNextValue(); !valid {
 			return
 		}
@@ -627,6 +657,10 @@ func (rl *respDeserializer) getNextDynamicSet() (value respSet, valid bool) {
 			return s, true
 		}
 		v = respNormalizeKey(v)
+		if !respIsHashable(v) {
+			valid = false
+			return
+		}
 		s[v] = struct{}{}
 	}
 }
